@@ -49,6 +49,8 @@ pub struct RefParse {
     pub outcome: RefOutcome,
     /// 1..3 bytes that do not form a word follow the last instruction (not judged by C03)
     pub trailing_bytes: bool,
+    /// "Kind:value" of enumerants whose variadic parameter list was matched with a count != 1
+    pub variadic_params: Vec<String>,
 }
 
 struct Win<'a> {
@@ -101,6 +103,9 @@ fn missing(what: &str) -> Stop {
 
 struct Ctx<'t> {
     types: &'t TypeModel,
+    /// enumerant parameters with a non-`One` quantifier that were matched with a count other than one
+    /// (the only known instance is Decoration BankBitsINTEL): rspirv reads exactly one such parameter
+    variadic_params: std::cell::RefCell<Vec<String>>,
 }
 
 fn context_literal(w: &mut Win, cx: &Ctx, type_id: u32, out: &mut Vec<AOp>) -> Result<(), Stop> {
@@ -189,7 +194,7 @@ fn operand(w: &mut Win, cx: &Ctx, k: K, inst: &AInst, out: &mut Vec<AOp>, depth:
             }
             out.push(AOp::w(k, v));
             let params = d.params_seq(k, v);
-            logical_seq(w, cx, &params, inst, out, depth)?;
+            param_seq(w, cx, k, v, &params, inst, out, depth)?;
         }
         k if decls::kind_class(k) == 1 => {
             let v = w.word().ok_or_else(|| missing(crate::gram::kind_name(k)))?;
@@ -198,9 +203,23 @@ fn operand(w: &mut Win, cx: &Ctx, k: K, inst: &AInst, out: &mut Vec<AOp>, depth:
             }
             out.push(AOp::w(k, v));
             let params = d.params_seq(k, v);
-            logical_seq(w, cx, &params, inst, out, depth)?;
+            param_seq(w, cx, k, v, &params, inst, out, depth)?;
         }
         _ => return Err(Stop::Unspecified(format!("operand kind {:?} not modelled", k))),
+    }
+    Ok(())
+}
+
+/// Parameters of an enumerant / mask value; notes variadic parameters matched other than once.
+#[allow(clippy::too_many_arguments)]
+fn param_seq(w: &mut Win, cx: &Ctx, k: K, v: u32, params: &[(K, Q)], inst: &AInst, out: &mut Vec<AOp>, depth: u32) -> Result<(), Stop> {
+    for (pk, pq) in params {
+        let before = out.len();
+        let r = logical_seq(w, cx, &[(*pk, *pq)], inst, out, depth);
+        if *pq != Q::One && (out.len() - before != 1 || r.is_err()) {
+            cx.variadic_params.borrow_mut().push(format!("{}:{}", crate::gram::kind_name(k), v));
+        }
+        r?;
     }
     Ok(())
 }
@@ -232,7 +251,7 @@ fn logical_seq(w: &mut Win, cx: &Ctx, ops: &[(K, Q)], inst: &AInst, out: &mut Ve
 }
 
 pub fn refparse(bytes: &[u8]) -> RefParse {
-    let mut rp = RefParse { header: None, insts: vec![], starts: vec![], outcome: RefOutcome::Accept, trailing_bytes: false };
+    let mut rp = RefParse { header: None, insts: vec![], starts: vec![], outcome: RefOutcome::Accept, trailing_bytes: false, variadic_params: vec![] };
     let rd = |p: usize| u32::from_le_bytes([bytes[p], bytes[p + 1], bytes[p + 2], bytes[p + 3]]);
     if bytes.len() < 20 {
         let mut classes = vec![Fault::HeaderIncomplete];
@@ -282,7 +301,7 @@ pub fn refparse(bytes: &[u8]) -> RefParse {
         let avail = std::cmp::min(wc - 1, (bytes.len() - (p + 4)) / 4);
         let mut w = Win { bytes, base: p + 4, avail, cur: 0 };
         let mut inst = AInst::new(opcode, None, None, vec![]);
-        let cx = Ctx { types: &types };
+        let cx = Ctx { types: &types, variadic_params: Default::default() };
         let mut stop: Option<Stop> = None;
         for (li, (k, q)) in ri.ops.iter().enumerate() {
             let r: Result<(), Stop> = (|| {
@@ -311,6 +330,7 @@ pub fn refparse(bytes: &[u8]) -> RefParse {
                 break;
             }
         }
+        rp.variadic_params.extend(cx.variadic_params.borrow().iter().cloned());
         if stop.is_none() && w.remaining() > 0 {
             stop = Some(Stop::Fault(vec![Fault::Surplus], format!("{} operand word(s) left over", w.remaining())));
         }
